@@ -1,5 +1,6 @@
 import SnaxVerif.Lemmas.Phs
 import SnaxVerif.Lemmas.PhsKeeps
+import SnaxVerif.Lemmas.PhsHistory
 /-! C20 — a merged processing element, configured as decoded, computes each kernel.
 
 `PE.wf` are the structural invariants of the IR (unique symbol names, a default region in every choose op,
@@ -9,14 +10,15 @@ generated history and reported in the correspondence output (`hyp_ok`). -/
 namespace SnaxVerif.C20
 open SnaxVerif.Phs
 
-/-- The property at full strength, for a merge history `k0 :: ks` (each a kernel body): every prefix of the
-history merges without error into an element `A`, every kernel merged so far decodes against `A`, the number
-of decoded values is `trueSwitches A`, and `A` under the decoded switches delivers exactly the values the
-kernel delivers (any value type, any operation semantics, any data inputs). -/
+/-- The property at full strength, for a merge history `k0 :: ks` of any length. Every kernel is a kernel as
+`convert_generic_body_to_phs` produces it (`kwf`: structural IR invariants, concrete, switches and operands
+refer to choose ops of the kernel) and has as many data ports as the first one. If the history merges into
+`A`, every kernel of the history decodes against `A`, the number of decoded values is `trueSwitches A`, and
+`A` under the decoded switches delivers exactly the values the kernel delivers (any value type, any
+operation semantics, any data inputs). Proved below: `C20_history`. -/
 def C20_statement : Prop :=
-  ∀ (k0 : PE) (ks : List PE) (A : PE), k0.isConcrete = true → (∀ k ∈ ks, k.isConcrete = true) →
-    (∀ k ∈ ks, k.argTys = k0.argTys) → k0.wf = true → (∀ k ∈ ks, k.wf = true) →
-    mergeAll k0 ks = .ok A →
+  ∀ (k0 : PE) (ks : List PE) (A : PE), k0.kwf = true → (∀ k, k ∈ ks → k.kwf = true) →
+    (∀ k, k ∈ ks → k.argTys.length = k0.argTys.length) → mergeAll k0 ks = .ok A →
     ∀ k, k ∈ k0 :: ks → ∃ sw, decode A k = .ok sw ∧ sw.length = A.trueSwitches ∧
       ∀ (V : Type) (sem : OpCode → List V → V) (inp : List V) (v : V),
         Computes sem k (fun _ => 0) inp k.yld v ↔ Computes sem A (A.assign sw) inp A.yld v
@@ -28,72 +30,21 @@ theorem decode_sound (A K : PE) (sw : List Nat) (hA : A.wf = true) (hK : uniqueI
     (hcov : covers A K = true) (h : decode A K = .ok sw)
     {V : Type} (sem : OpCode → List V → V) (inp : List V) (v : V)
     (hk : Computes sem K (fun _ => 0) inp K.yld v) : Computes sem A (A.assign sw) inp A.yld v := by
-  obtain ⟨_, hargs, pre, m, hpre, hsearch, hsw⟩ := decode_ok h
-  have hvalid := search_sound _ _ _ _ hsearch
-  obtain ⟨hvn, hvy⟩ := validMapping_true hvalid
-  have hne : ∀ (j : Nat) (a : Node), A.nodes[j]? = some a → a.ops ≠ [] := fun j a ha => (wf_node hA ha).1
-  obtain ⟨hplen, hpget⟩ := localChoices_get A K A.switches 0 pre hpre
-  -- the valuation seen by the hardware, switch by switch
-  have hassign : ∀ s u, A.switches[s]? = some u → ∃ q, localChoice A K s u = .ok q ∧ A.assign sw s = preVal m q := by
-    intro s u hu
-    obtain ⟨q, hq1, hq2⟩ := hpget s u hu
-    refine ⟨q, by simpa using hq2, ?_⟩
-    simp only [PE.assign, PE.expand, hsw, expandFrom_final A K m hne A.switches 0 pre hpre]
-    rw [List.getD_eq_getElem?_getD, List.getElem?_map, hq1]; rfl
-  have hmux : ∀ s, A.switches[s]? = some .mux → m s = A.assign sw s := by
-    intro s hs
-    obtain ⟨q, hq1, hq2⟩ := hassign s _ hs
-    simp only [localChoice] at hq1; injection hq1 with hq1; subst hq1
-    rw [hq2]; rfl
-  have hyl := validOperands_true K A m _ _ hvy
-  obtain ⟨l, hl1, hl2⟩ := hyl.2 0 (by simp) (by simp)
-  simp only [List.getElem_cons_zero] at hl1 hl2
-  rw [follow_congr A m (A.assign sw) hmux A.yld (wf_yield hA)] at hl2
-  refine sim sem A K (A.assign sw) inp hargs (wf_unique hA) ?_ K.yld v hk A.yld l hl1 hl2
-  intro c k hn
-  have hmem : k ∈ K.nodes := List.mem_of_getElem? hn
-  obtain ⟨ai, a, hlook, ha, hvo⟩ := validNodes_true K A m K.nodes hvn k hmem
-  obtain ⟨a', ha', hid⟩ := lookup_some hlook
-  rw [ha] at ha'; injection ha' with ha'; subst ha'
-  obtain ⟨hane, haok, hasw⟩ := wf_node hA ha
-  obtain ⟨hlen, hops⟩ := validOperands_true K A m _ _ hvo
-  refine ⟨ai, a, ha, hid, ?_, hlen, ?_⟩
-  · -- the selected operation
-    intro op hop
-    obtain ⟨q, hq1, hq2⟩ := hassign a.sw _ hasw
-    rw [hq2]
-    have hopmem : op ∈ k.ops := List.mem_of_getElem? hop
-    have hcova : op ∈ a.ops := by
-      simp only [covers, List.all_eq_true] at hcov
-      have := hcov k hmem
-      simp only [coversNode, hlook, ha, List.all_eq_true, List.contains_eq_mem, decide_eq_true_eq] at this
-      exact this op hopmem
-    simp only [localChoice, ha] at hq1
-    split at hq1
-    next h1 =>
-      injection hq1 with hq1; subst hq1
-      simp only [preVal]
-      match hao : a.ops, h1 with
-      | [x], _ =>
-        rw [hao] at hcova
-        simp at hcova; subst hcova; rfl
-    next h1 =>
-      have hlk : K.lookup a.id = some c := by rw [hid]; exact lookup_of_get hK hn
-      simp only [hlk, hn] at hq1
-      have hhead : k.ops.head? = some op := by rw [List.head?_eq_getElem?]; exact hop
-      simp only [hhead] at hq1
-      split at hq1
-      next i hi =>
-        injection hq1 with hq1; subst hq1
-        simp only [preVal]
-        have := (idxOf_some op a.ops 0 i hi).2
-        simpa using this
-      · simp at hq1
-  · intro p h1 h2
-    obtain ⟨l', hl1', hl2'⟩ := hops p h1 h2
-    refine ⟨l', hl1', ?_⟩
-    rw [← follow_congr A m (A.assign sw) hmux _ (haok _ (List.getElem_mem h2))]
-    exact hl2'
+  obtain ⟨hargs, hnode, l, hl1, hl2⟩ := decode_facts A K sw hA hK hcov h
+  exact sim sem A K (A.assign sw) inp hargs (wf_unique hA) hnode K.yld v hk A.yld l hl1 hl2
+
+/-- **decode reflects** (full): conversely, the configured merged element delivers nothing the kernel does not
+deliver — with `decode_sound`, the two deliver exactly the same values on every input, also on inputs where
+neither delivers one. -/
+theorem decode_reflects (A K : PE) (sw : List Nat) (hA : A.wf = true) (hK : uniqueIds K.nodes = true)
+    (hcon : K.isConcrete = true) (hcov : covers A K = true) (h : decode A K = .ok sw)
+    {V : Type} (sem : OpCode → List V → V) (inp : List V) (v : V)
+    (ha : Computes sem A (A.assign sw) inp A.yld v) : Computes sem K (fun _ => 0) inp K.yld v := by
+  obtain ⟨hargs, hnode, l, hl1, hl2⟩ := decode_facts A K sw hA hK hcov h
+  refine sim_rev sem A K (A.assign sw) inp hargs (wf_unique hA) hnode ?_ A.yld v ha K.yld l hl1 hl2
+  intro c k hk
+  obtain ⟨⟨t, ht⟩, _⟩ := concrete_node hcon (List.mem_of_getElem? hk)
+  exact ⟨t, by simp [ht]⟩
 
 /-- the semantics is a function: a configured element delivers at most one value -/
 theorem computes_functional (A : PE) (swv : Nat → Nat) {V : Type} (sem : OpCode → List V → V) (inp : List V)
@@ -133,10 +84,13 @@ theorem search_mapping_complete (K A : PE) (l : List Nat) (m0 : Nat → Nat)
   obtain ⟨sol, hs⟩ := search_complete (validMapping K A) hne (validMapping_congr K A) l m0 hex
   exact ⟨sol, hs, search_sound _ _ _ _ hs⟩
 
-/-- full statement of "merging a further kernel keeps earlier kernels decodable" -/
+/-- full statement of "merging a further kernel keeps earlier kernels decodable": `Inv A` is the invariant of
+merged graphs (`Lemmas/PhsCombine.lean`; it holds for every kernel and is kept by every merge:
+`reachable_inv`), the merged kernel `G` only has to offer an operation in every choose op. Proved below:
+`combine_keeps`. -/
 def combine_keeps_statement : Prop :=
-  ∀ (A G A' K : PE) (sw : List Nat), A.wf = true → covers A K = true → decode A K = .ok sw →
-    combine A G = .ok A' → ∃ sw', decode A' K = .ok sw'
+  ∀ (A G A' K : PE) (sw : List Nat), Inv A → (∀ g, g ∈ G.nodes → g.ops ≠ []) → covers A K = true →
+    decode A K = .ok sw → combine A G = .ok A' → ∃ sw', decode A' K = .ok sw'
 
 /-- **combine keeps** (partial). Clauses:
 * `extends_clause`: the merged graph `A'` extends `A` the way `append_to_abstract_graph` extends it (same data
@@ -206,6 +160,62 @@ theorem combine_keeps_needs_extends_fails :
   have hd : decode A' K = .error .mappingNotFound := by decide
   rw [hd] at hsw'; cases hsw'
 
+/-- every graph a merge history reaches satisfies the invariant (and so `wf`, the hypothesis of
+`decode_sound` / `switch_count`), has the data ports of the first kernel, and covers every kernel merged -/
+theorem reachable_inv (k0 : PE) (ks : List PE) (A : PE) (h0 : k0.kwf = true) (hks : ∀ k, k ∈ ks → k.kwf = true)
+    (hm : mergeAll k0 ks = .ok A) :
+    Inv A ∧ A.wf = true ∧ A.argTys = k0.argTys ∧ ∀ k, k ∈ k0 :: ks → Routable A k ∧ covers A k = true := by
+  obtain ⟨hr0, hc0⟩ := routable_self h0
+  obtain ⟨hinv, hargs, hall⟩ := mergeAll_ok ks k0 A [k0] (inv_of_kernel h0)
+    (fun K hK => by simp at hK; subst hK; exact ⟨hr0, hc0⟩) hks hm
+  exact ⟨hinv, hinv.wf, hargs, fun k hk => hall k (by simpa using hk)⟩
+
+/-- **a merge establishes the extension relation** (discharges `extends_clause` of `combine_keeps_partial`) -/
+theorem combine_establishes_extends (A G A' : PE) (hinv : Inv A) (hG : ∀ g, g ∈ G.nodes → g.ops ≠ [])
+    (h : combine A G = .ok A') : Extends A A' ∧ Inv A' ∧ Routable A' G ∧ covers A' G = true := by
+  obtain ⟨hinv', hext, hr, hc⟩ := combine_ok hinv hG h
+  exact ⟨extends_of_ext hext, hinv', hr, hc⟩
+
+/-- **combine keeps** (full): merging a further kernel never makes an earlier kernel undecodable. -/
+theorem combine_keeps : combine_keeps_statement := by
+  intro A G A' K sw hinv hG hcov hdec hcomb
+  obtain ⟨hinv', hext, _, _⟩ := combine_ok hinv hG hcomb
+  obtain ⟨hcon, _⟩ := decode_ok hdec
+  refine combine_keeps_partial A A' K sw hdec (extends_of_ext hext) ?_
+  apply localChoices_ok hinv'.wf (covers_mono hext hcov) hcon
+  intro u hu j hj
+  obtain ⟨s, hs, hsu⟩ := List.getElem_of_mem hu
+  exact hinv'.swt s j (by rw [List.getElem?_eq_getElem hs, hsu, hj])
+
+/-- **C20 for merge histories of any length** (full): the statement above holds. -/
+theorem C20_history : C20_statement := by
+  intro k0 ks A h0 hks hargs hm k hk
+  obtain ⟨hinv, hwf, hA, hall⟩ := reachable_inv k0 ks A h0 hks hm
+  obtain ⟨hr, hc⟩ := hall k hk
+  have hkw : k.kwf = true := by
+    rcases List.mem_cons.mp hk with rfl | hk
+    · exact h0
+    · exact hks k hk
+  have hlen : k.argTys.length = A.argTys.length := by
+    rw [hA]
+    rcases List.mem_cons.mp hk with rfl | hk
+    · rfl
+    · exact hargs k hk
+  obtain ⟨hkwf, hcon, _, _⟩ := kwf_parts hkw
+  have huK := wf_unique hkwf
+  obtain ⟨sw, hsw⟩ := decodable_of_routable hwf hinv.swt hinv.slots hcon huK hlen hc hr
+  refine ⟨sw, hsw, switch_count A k sw hwf hsw, fun V sem inp v => ⟨?_, ?_⟩⟩
+  · exact decode_sound A k sw hwf huK hc hsw sem inp v
+  · exact decode_reflects A k sw hwf huK hcon hc hsw sem inp v
+
+/-- **`PEOp.from_operations`** (full): the element it builds computes, under switch value `i`, operation `i` of
+its data ports, port `j` feeding operand `j` — any number of operations, any arity, any semantics. -/
+theorem from_operations_computes (ops : List (OpCode × List Ty × Ty)) (A : PE) (h : peFromOperations ops = .ok A)
+    (i : Nat) (name : OpCode) (tys : List Ty) (res : Ty) (hi : ops[i]? = some (name, tys, res))
+    {V : Type} (sem : OpCode → List V → V) (inp : List V) (hlen : inp.length = A.argTys.length) :
+    Computes sem A (fun _ => i) inp A.yld (sem name inp) :=
+  peFromOperations_computes h hi sem inp hlen
+
 /-! ### non-vacuity: a concrete two-kernel history -/
 
 section Examples
@@ -223,6 +233,16 @@ def exA : PE :=
    .mux 3 (.node 1) (.node 0), [.choose 0, .choose 1, .mux, .mux]⟩
 
 example : combine exK1 exK2 = .ok exA := by decide
+/-- hypotheses of `C20_history` / `reachable_inv` for this history (and the conclusion, instantiated) -/
+example : exK1.kwf = true ∧ exK2.kwf = true ∧ exK2.argTys.length = exK1.argTys.length ∧
+    mergeAll exK1 [exK2] = .ok exA := by decide
+example : ∃ sw, decode exA exK2 = .ok sw ∧ sw.length = exA.trueSwitches :=
+  let ⟨sw, h1, h2, _⟩ := C20_history exK1 [exK2] exA (by decide) (by decide) (by decide) (by decide) exK2 (by simp)
+  ⟨sw, h1, h2⟩
+example : ∃ A, peFromOperations [("arith.addi", [i32, i32], i32), ("arith.muli", [i32, i32], i32)] = .ok A ∧
+    A.argTys.length = 2 := ⟨_, rfl, rfl⟩
+/-- hypotheses of `combine_keeps` / `combine_establishes_extends`: `Inv` holds for a kernel -/
+example : Inv exK1 := inv_of_kernel (by decide)
 /-- hypotheses of `decode_sound` / `decode_exact` / `switch_count` hold for both kernels of the history -/
 example : exA.wf = true ∧ uniqueIds exK2.nodes = true ∧ covers exA exK2 = true ∧ decode exA exK2 = .ok [1, 1] ∧
     exA.trueSwitches = 2 := by decide
